@@ -71,8 +71,9 @@ PATS["leafzero"] = lambda i, leaf: (0.0 if leaf else 1.0)
 PATS["twos"] = lambda i, leaf: (2.0 if i % 2 else 1.0)
 PATS["thirds"] = lambda i, leaf: [1.0 / 3, 0.1, 0.7, 2.0 / 3, 0.3][i % 5]
 PATS["leafmissing"] = lambda i, leaf: (None if leaf else [0.5, 2.0, 1.25][i % 3])
+PATS["sym"] = lambda i, leaf: (2.0 / 3 if leaf else 0.7)  # symmetric, non-dyadic: the midpoint is on a node only up to rounding
 PATS["ultra"] = None  # replaced in mk(): ultrametric, unit height per level
-ALL_PATS = ["none", "ones", "ints", "dyadic", "onemissing", "zeros", "leafzero", "twos", "thirds", "leafmissing", "ultra"]
+ALL_PATS = ["none", "ones", "ints", "dyadic", "onemissing", "zeros", "leafzero", "twos", "thirds", "sym", "leafmissing", "ultra"]
 
 SOFT = ("reseed_at", "to_outgroup_position", "randomly_reorient", "randomly_rotate", "ladderize", "reorder")
 HARD = ("reroot_at_node", "reroot_at_edge", "reroot_at_midpoint")
@@ -379,8 +380,8 @@ def t2(ctx):
     shapes = list(shapes_upto(N))
     items = [(s, None) for s in _specs(shapes, ALL_PATS, R3)]
     _run_scope(ctx, "reroot@shapes<=%d" % N,
-               "every ordered shape with <=%d leaves x 11 length patterns (absent, ones, integers 0..3, dyadic, one missing, all zero, zero leaves, "
-               "1/2 alternating, non-dyadic, missing leaves, ultrametric) x 3 rooting states x every operation x every target node/edge x every "
+               "every ordered shape with <=%d leaves x 12 length patterns (absent, ones, integers 0..3, dyadic, one missing, all zero, zero leaves, "
+               "1/2 alternating, non-dyadic, symmetric non-dyadic, missing leaves, ultrametric) x 3 rooting states x every operation x every target node/edge x every "
                "boolean option (reroot_at_edge: 5 choices of length1/length2; random operations: 3 seeds); non-trivial = >=3 leaves" % N,
                True, items, reported)
     # unifurcations in the source
